@@ -172,6 +172,16 @@ class ExtCommunity(Attribute):
 
         return ext_community
 
+    @staticmethod
+    def construct_mac(mac):
+        """
+        '00-11-22-33-44-55' -> 6 octets
+        """
+        groups = mac.split('-')
+        if len(groups) != 6:
+            raise ValueError('a MAC address has six groups of two hex digits: %r' % mac)
+        return b''.join([struct.pack('!B', int(i, 16)) for i in groups])
+
     @classmethod
     def construct(cls, value):
 
@@ -237,8 +247,7 @@ class ExtCommunity(Attribute):
                 ext_community_hex += struct.pack('!HHI', bgp_cons.BGP_EXT_COM_ENCAP, 0, int(item[1]))
             # EVPN
             elif item[0] == bgp_cons.BGP_EXT_COM_EVPN_ES_IMPORT:
-                mac = b''.join([struct.pack('!B', (int(i, 16))) for i in item[1].split("-")])
-                ext_community_hex += struct.pack('!H', item[0]) + mac
+                ext_community_hex += struct.pack('!H', item[0]) + cls.construct_mac(item[1])
             elif item[0] == bgp_cons.BGP_EXT_COM_EVPN_ESI_MPLS_LABEL:
                 flag = struct.pack('!B', item[1])
                 label = struct.pack('!L', (item[2] << 4 | 1))[1:]
@@ -248,8 +257,7 @@ class ExtCommunity(Attribute):
                 seq = struct.pack('!I', item[2])
                 ext_community_hex += struct.pack('!H', item[0]) + flag + b'\x00' + seq
             elif item[0] == bgp_cons.BGP_EXT_COM_EVPN_ROUTE_MAC:
-                ext_community_hex += struct.pack('!H', item[0]) + b''.join(
-                    [struct.pack('!B', (int(i, 16))) for i in item[1].split("-")])
+                ext_community_hex += struct.pack('!H', item[0]) + cls.construct_mac(item[1])
             # bgp link bandwith
             elif item[0] == bgp_cons.BGP_EXT_COM_LINK_BW:
                 asn, an = item[1].split(':')
